@@ -17,8 +17,10 @@ Findings on the CURRENT code (kept as `…_full_false` + witness, replayed on th
   whose compaction kept no point (kernel value exactly 0, e.g. Gaussian underflow for points ≥ 39 apart, first bit 0)
   has n > 0 and is skipped: its n is lost.
 * `ds_dim_refused_full_false` — `get_estimate` does not check the dimension of the query point (update and merge do).
+* `ds_estimate_nonneg_full_false` — `get_estimate` computes the level weight as `1 << height` in 32-bit `int` (the iterator uses
+  `1ULL << height_`): a point on level 31 gets weight −2^31 (negative estimates), level ≥ 32 is undefined behaviour.
 -/
-import DSProofs.Lemmas.DensityExact
+import DSProofs.Lemmas.DensityWitness
 import DSModel.Density.Kernels
 import DSGen.Density
 namespace DS.Density
@@ -190,13 +192,34 @@ theorem ds_exact_before_compaction (P : Picker ρ Rat) (minK : Nat) (hm : 1 ≤ 
   obtain ⟨e1, e2⟩ := run_exact P minK hm hist hv r hop h1
   refine ⟨?_, e2⟩
   simp only [estimate, e1, e2, estFrom]
-  rw [estLevel_rat]
+  rw [estLevel_rat, estWeight_rat]
   simp [Scalar.zero]
 
-/-- For a non-negative kernel every estimate is non-negative — in EVERY state (any levels, any n; in `Rat` x/0 = 0). -/
-theorem ds_estimate_nonneg (K : Point Rat → Point Rat → Rat) (hK : ∀ p q, 0 ≤ K p q) (s : Sketch Rat) (q : Point Rat) :
-    0 ≤ estimate K s q :=
-  estFrom_nonneg K hK q s.n 0 _ (le_refl _) s.levels
+/-- FULL statement: for a non-negative kernel every estimate of every reachable sketch is non-negative. -/
+def ds_estimate_nonneg_full : Prop :=
+  ∀ (ρ : Type) (P : Picker ρ Rat) (r : ρ) (hist : Hist Rat), hist.valid 2 →
+    ∀ (K : Point Rat → Point Rat → Rat), (∀ p q, 0 ≤ K p q) → ∀ q, 0 ≤ estimate K (run P hist r).1 q
+
+/-- The current code violates it: the balanced merge tree over 2^36 one-point sketches (k = 2, every compaction keeps every
+second point) has 32 points on level 31; `(1 << 31)` is `INT_MIN`, the estimate for the constant kernel 1 is −1 instead of 1.
+(n = 2^36 fits `uint64_t`; on the implementation the same state is reached by 36 `copy`+`merge` steps – corpus replay
+`w4-estimate-negative-level31.txt`, key `estimate-negative-level31-weight-overflow`.) -/
+theorem ds_estimate_nonneg_full_false : ¬ ds_estimate_nonneg_full := by
+  intro h
+  have h1 : 0 ≤ estimate oneK (run keepHalf (dblHist 36) ()).1 [0] :=
+    h Unit keepHalf () (dblHist 36) (dblHist_valid 36) oneK (fun _ _ => by simp [oneK]) [0]
+  rw [run_dblHist_fst 36, dblChain36_est] at h1
+  exact absurd h1 (by decide)
+
+/-- PROVED PART: in EVERY state with at most 31 levels (all weights `1 << h`, h ≤ 30, are positive ints; any n – in `Rat` x/0 = 0)
+the estimate of a non-negative kernel is non-negative.  Missing for the full statement: levels ≥ 31, where the code's weight
+is not 2^h. -/
+theorem ds_estimate_nonneg_partial (K : Point Rat → Point Rat → Rat) (hK : ∀ p q, 0 ≤ K p q) (s : Sketch Rat) (q : Point Rat)
+    (hL : s.levels.length ≤ 31) : 0 ≤ estimate K s q :=
+  estFrom_nonneg K hK q s.n 0 _ (le_refl _) s.levels (by omega)
+
+example : (dblChain 30).levels.length = 26 ∧ (dblChain 30).numRetained = 32 ∧ 0 ≤ estimate oneK (dblChain 30) [0] := by
+  decide +kernel
 
 /-- whenever a query is allowed (`get_estimate` does not throw: the sketch retains a point) n > 0, so the division
 in `get_estimate` is by a positive number. -/
